@@ -49,7 +49,9 @@ class Adapter(EnvAdapter):
         no10 = [q for q in self.props if q != "C10"]
         out += [_c("n6_p2", 6, 0.02, 12, policies=POL, props=no10), _c("n6_p98", 6, 0.98, 12, policies=POL, props=no10),
                 _c("n1_p50", 1, 0.5, 6, policies=POL, props=no10),                                   # the only graph on one node
-                _c("n2_p98", 2, 0.98, 8, policies=POL, props=no10), _c("n30_p30", 30, 0.3, 4, probe_every=3, policies=POL)]
+                _c("n2_p98", 2, 0.98, 8, policies=POL, props=no10), _c("n30_p30", 30, 0.3, 4, probe_every=3, policies=POL),
+                # more than 127 nodes (colour and node indices beyond one signed byte)
+                _c("n130_p5", 130, 0.05, 2, probe_every=20, policies=POL)]
         return out
 
     # ---- the real environment -------------------------------------------------------------
